@@ -7,6 +7,7 @@ import (
 	"os"
 	"runtime"
 	"strconv"
+	"strings"
 	"sync"
 	"testing/synctest"
 )
@@ -33,6 +34,7 @@ type Sched struct {
 	OnProbeSettled func(site string)
 	holdExt        bool
 	holdSite       string
+	armText        string // (under armMu) the text a held log line must contain
 	arrive         chan *Parked
 	Waiting        []*Parked
 	Pass           map[string]bool // sites that never park (external API calls made by the harness)
@@ -100,6 +102,33 @@ func (s *Sched) InOp(kind, ch string) {
 	p := &Parked{Site: "vchan.in" + kind, Args: []any{ch}, Gid: gid(), rel: make(chan struct{})}
 	s.arrive <- p
 	<-p.rel
+}
+
+// InLog is called from the Logger the harness gives the library. Log lines sit at places no hook marks - some under the
+// library's lock, some (after a refactoring) just outside it; a scenario can hold the goroutine that writes the next line
+// containing a given text right there (HoldLog / Unhold), exactly as it holds one inside a channel operation.
+func (s *Sched) InLog(text string) {
+	if s.Free || gid() == s.RootGid {
+		return
+	}
+	s.armMu.Lock()
+	if s.armOp != "log" || !strings.Contains(text, s.armText) {
+		s.armMu.Unlock()
+		return
+	}
+	s.armOp = ""
+	s.armMu.Unlock()
+	p := &Parked{Site: "vchan.inlog", Args: []any{text}, Gid: gid(), rel: make(chan struct{})}
+	s.arrive <- p
+	<-p.rel
+}
+
+// HoldLog arms a hold at the next log line that contains text.
+func (s *Sched) HoldLog(text string) {
+	s.armMu.Lock()
+	s.armText = text
+	s.armMu.Unlock()
+	s.HoldOp("log")
 }
 
 // SettleExt is the extended quiescence used while a goroutine is parked inside
